@@ -1131,10 +1131,10 @@ def search_suite(ctx, rng):
         cases.append(make_case(rng, shape=shape, placer=p, router=r, unroll=u, restrict=False if "Star" in (p, r) else "auto",
                                ngates=rng.randint(3, 9)))
     # random
-    for _ in range(9000 if ctx.thorough else 1300):
+    for _ in range(16000 if ctx.thorough else 1300):
         cases.append(make_case(rng))
     # circuits smaller than the device with permuted wire-name subsets, measured registers
-    for _ in range(2500 if ctx.thorough else 350):
+    for _ in range(4000 if ctx.thorough else 350):
         cases.append(make_case(rng, shape=rng.choice(MAIN_SHAPES), pre=True, small=True, mode="det", meas=rng.choice(["trailing", "mid"]),
                                router=rng.choice(["ShortestPaths", "Sabre"]), ngates=rng.randint(2, 9)))
     for case in cases:
